@@ -794,12 +794,13 @@ where
 
                 let mut ret = Vec::with_capacity(N);
 
-                for elem in iter {
-                    let a = T::deserialize_from_value(elem.into_value(), location.push_index(0));
+                for (index, elem) in iter.enumerate() {
+                    let a =
+                        T::deserialize_from_value(elem.into_value(), location.push_index(index));
                     match a {
                         Ok(a) => ret.push(a),
                         Err(e) => {
-                            error = match E::merge(error, e, location.push_index(0)) {
+                            error = match E::merge(error, e, location.push_index(index)) {
                                 ControlFlow::Continue(e) => Some(e),
                                 ControlFlow::Break(e) => return Err(e),
                             };
